@@ -14,12 +14,13 @@ from declib2 import fill, Dec2, gen_block, spec, model1, has_zero_offset
 from capi import Lib
 from vlib import Oracle, build_lib, hx, md5
 
-THEOREMS = ["C05_valid_decodes", "C05_valid_decodes_safe", "C05_continue_step", "C05_success_sound", "C05_success_sound_strict_refuted", "C05_inplace_margin"]
+THEOREMS = ["C05_valid_decodes", "C05_valid_decodes_safe", "C05_continue_step", "C05_success_sound", "C05_success_sound_strict_refuted", "C05_inplace_margin", "C05_fast_valid", "C05_fast_usingDict_valid", "C05_fast_continue_step", "C05_inplace_step_footprint", "C05_inplace_footprint_partial"]
 ORACLES = ["block", "dec2"]
 CORRESPONDENCE = [
     "dec_generic/decompress_usingDict model == LZ4_decompress_safe(_usingDict) on valid blocks (return value, whole destination image), fast loop on",
     "dec_generic/decompress_usingDict model == LZ4_decompress_safe(_usingDict) on valid blocks (return value, whole destination image), fast loop off",
-    "DecStream.decompress_safe_continue model == LZ4_decompress_safe_continue (return value, destination image, the four LZ4_streamDecode_t fields) in every documented geometry"]
+    "DecStream.decompress_safe_continue model == LZ4_decompress_safe_continue (return value, destination image, the four LZ4_streamDecode_t fields) in every documented geometry",
+    "DecFast model (LZ4_decompress_unsafe_generic) == LZ4_decompress_fast / _fast_usingDict on valid blocks (return value, destination image, no out-of-buffer access) and == LZ4_decompress_fast_continue (return value, image, LZ4_streamDecode_t fields) in every geometry"]
 RULE = ("valid blocks generated from sequences by an independent encoder (profiles: generic, short offsets 1..8 x lengths near the buffer end, "
         "zero-literal sequences (also after 64 KB of output), 255-chains for literal and match lengths, matches straddling dictionary and output, "
         "offset = exactly the available history, blocks > 64 KB, tiny/empty) x history size {0,1,7,8,100,4000,65535,65536,70000} x placement "
@@ -29,7 +30,7 @@ RULE = ("valid blocks generated from sequences by an independent encoder (profil
         "non-trivial = block with at least one match sequence; distinct = distinct (block, history length, entry point, capacity) tuples")
 TRUSTED = ["block specification Spec/BlockSpec.v (written from doc/lz4_Block_format.md) is the judge",
            "hand-written model Model/Dec.v, Model/DecApi.v, Model/DecStream.v tied by image comparison only",
-           "converse for the partial entry points uses a harness-side (Python) prefix decoder of the sequence semantics"]
+           "converse for the partial entry points: the specified prefix comes from the extracted Model.DecSem.specified_output (oracle dec2 semout); a harness-side (Python) prefix decoder is used only to classify the F5 class and for inputs above 4000+3000 bytes"]
 ASSUMPTIONS = ["buffers do not wrap the address space", "fixed-size LZ4_memcpy is load-then-store",
                "in-place decoding is exercised only for blocks with compressedSize < decompressedSize (documented presumption)"]
 
@@ -128,6 +129,13 @@ def check_valid_block(st, rng, res, blk, D, hist, gen_hist_len, profile, big=Fal
             if perr or r != len(blk) or img != D:
                 fail(res, "prop_fail", "valid block: LZ4_decompress_%s returned %d (expected %d = source size), content %s %s" % (api, r, len(blk), "equal" if img == D else "DIFFERS", perr or ""),
                      blk=blk.hex() if len(blk) < 4000 else "len=%d" % len(blk), api=api, build=bname, hist=hshort(h), profile=profile)
+            if bname == "fast1" and rng.random() < (0.3 if (len(h) < 60000 and not big) else 0.08):
+                # correspondence of Model/DecFast.v (the C function does not depend on LZ4_FAST_DEC_LOOP: one build suffices)
+                mr, mok, mimg = declib2.model_fast(st["dec2"], api, blk, n, h, salt)
+                res["stats"]["model_calls_fast"] += 1
+                if mok != "ok" or mr != r or mimg != md5(img):
+                    fail(res, "corr_fail", "DecFast model/code disagree on a valid block: model ret=%d %s code ret=%d image %s" % (mr, mok, r, "same" if mimg == md5(img) else "differs"),
+                         blk=blk.hex() if len(blk) < 4000 else "len=%d" % len(blk), api=api, build=bname, hist=hshort(h), salt=salt)
     # in-place decoding with the documented margin
     if gen_hist_len == 0 and len(blk) < n:
         for capmode in (0, 1):
@@ -176,6 +184,17 @@ def check_converse(st, rng, res, blk, hist, Dlen):
                 res["stats"]["conv_match"] += 1
                 res["keys"].add(hashlib.sha1(b"conv|%s|%d|%s|%d" % (blk[:4000], len(h), api.encode(), cap)).hexdigest())
         else:
+            if len(h) <= 4000 and len(blk) <= 3000:
+                # judge: the extracted specified_output (Coq: theorem C16_partial_sound) - the Python decoder below only classifies F5
+                a = st["dec2"].ask("semout", hx(h[-65536:]), hx(blk[:srcsize]), str(r)).split()
+                res["stats"]["conv_sem_calls"] += 1
+                if int(a[0]) >= r and a[1] == md5(img[:r]):
+                    res["stats"]["conv_match_partial_sem"] += 1
+                    continue
+                if not has_zero_offset(blk):
+                    fail(res, "prop_fail", "partial decoder returned %d but the output is not the prefix of the specified output (extracted sem; its length %s)" % (r, a[0]),
+                         blk=blk.hex(), api=api, cap=cap, target=target, build=bname, hist=hshort(h))
+                    continue
             exp, p0 = declib2.py_decode(h, blk[:srcsize], r)
             if p0 is not None and p0 < r and exp[:p0] == img[:p0] and has_zero_offset(blk):
                 fail(res, "prop_fail", "partial decoder reports success (%d) on a block with match offset 0 (output correct up to that match)" % r,
@@ -220,9 +239,9 @@ def check_stream(st, rng, res, geom, big, edge=False):
                      (geom, i, m[0], m[1], m[2], rec["ret"], rec["state"], "same" if m[3] == md5(rec["img"]) else "differs"), geom=geom, build=bname, block=i)
                 break
             res["keys"].add(hashlib.sha1(b"st|%s|%s|%d" % (geom.encode(), b["blk"][:2000], rec["cap"] - n)).hexdigest())
-        # deprecated LZ4_decompress_fast_continue over the same stream (direct oracle only)
+        # deprecated LZ4_decompress_fast_continue over the same stream (model: Model/DecFast.v, on one build)
         r2.setstate(state)
-        recs = declib2.run_stream(dec.lib, st["dec2"], bname == "fast1", geom, blocks, maxblock, r2, salt, use_fast_api=True, want_model=False)
+        recs = declib2.run_stream(dec.lib, st["dec2"], bname == "fast1", geom, blocks, maxblock, r2, salt, use_fast_api=True, want_model=(bname == "fast1" and (geom != "ring" or len(blocks) <= 12)))
         for i, (b, rec) in enumerate(zip(blocks, recs)):
             n = len(b["content"])
             res["evals"] += 1
@@ -230,6 +249,11 @@ def check_stream(st, rng, res, geom, big, edge=False):
             if rec["ret"] != len(b["blk"]) or rec["img"][:n] != b["content"]:
                 fail(res, "prop_fail", "LZ4_decompress_fast_continue (%s geometry, block %d) returned %d (expected %d), content %s" %
                      (geom, i, rec["ret"], len(b["blk"]), "equal" if rec["img"][:n] == b["content"] else "DIFFERS"), geom=geom, build=bname, block=i, blk=b["blk"].hex()[:4000])
+                break
+            m = rec["model"]
+            if m is not None and (m[0] != rec["ret"] or m[1] != "ok" or tuple(m[2]) != tuple(rec["state"]) or m[3] != md5(rec["img"])):
+                fail(res, "corr_fail", "fast stream model/code disagree (%s geometry, block %d): model ret=%d %s state=%s, code ret=%d state=%s, image %s" %
+                     (geom, i, m[0], m[1], m[2], rec["ret"], rec["state"], "same" if m[3] == md5(rec["img"]) else "differs"), geom=geom, build=bname, block=i)
                 break
 
 F5_BLOCK = bytes.fromhex("10410000506263646566")
